@@ -508,6 +508,11 @@ func (st *State) havocLocation(env *Env, m *Expr) {
 		}
 		return
 	}
+	if hn, sort, T, ok := e.pkgQualifiedHeap(m); ok && st.isPkgName(env, m.Args[0].Op) {
+		nt := st.heapHavoc(hn, sort)
+		st.assume(e.typeInv(T, nt))
+		return
+	}
 	switch m.Kind {
 	case EIdent:
 		if m.Op == "everything" {
@@ -565,7 +570,7 @@ func (st *State) havocLocation(env *Env, m *Expr) {
 						}
 					}
 					if gf := env.ghostFieldDecl(T, m.Op); gf != "" {
-						st.heapHavoc(gf, e.heapSorts[gf])
+						st.heapHavoc(gf, env.ghostFieldSort(T, m.Op))
 					}
 					return
 				}
@@ -596,7 +601,7 @@ func (st *State) havocLocation(env *Env, m *Expr) {
 		if !done {
 			if gv := env.ghostField(pt.Elem(), m.Op, ref); gv != nil {
 				hn := env.ghostFieldDecl(pt.Elem(), m.Op)
-				sort := e.heapSorts[hn]
+				sort := env.ghostFieldSort(pt.Elem(), m.Op)
 				h := st.heapGet(hn, sort)
 				_, fs := splitArraySort(sort)
 				st.heapSet(hn, sort, Store(h, ref, e.fresh("hav", fs)))
@@ -664,6 +669,27 @@ func (st *State) havocLocation(env *Env, m *Expr) {
 	panic(specErr("unsupported modifies entry %s", m))
 }
 
+
+// pkgQualifiedHeap: pkg.name denoting a ghost variable or a global variable of a package
+func (e *Engine) pkgQualifiedHeap(m *Expr) (string, Sort, types.Type, bool) {
+	if m.Kind != ESel || m.Args[0].Kind != EIdent {
+		return "", "", nil, false
+	}
+	pk := m.Args[0].Op
+	if gd := e.specs.Ghosts[pk+"."+m.Op]; gd != nil && !gd.IsField {
+		T := e.resolveType(gd.Type, gd.PkgName)
+		return "GH_" + sanitize(gd.PkgName+"_"+gd.Name), e.sortOf(T), T, true
+	}
+	for _, tp := range e.ld.allTypesPkgs() {
+		if tp.Name() == pk {
+			if obj, ok := tp.Scope().Lookup(m.Op).(*types.Var); ok {
+				return "G_" + sanitize(obj.Pkg().Name()+"_"+obj.Name()), e.sortOf(obj.Type()), obj.Type(), true
+			}
+		}
+	}
+	return "", "", nil, false
+}
+
 // tryMapExpr: a modifies entry that denotes a map object (a variable or field of map type)
 func (env *Env) tryMapExpr(m *Expr) (Value, *types.Map) {
 	if m.Kind != EIdent && m.Kind != ESel {
@@ -705,6 +731,17 @@ func (env *Env) tryMapExpr(m *Expr) (Value, *types.Map) {
 	return v, mt
 }
 
+func (env *Env) ghostFieldSort(T types.Type, name string) Sort {
+	n := types.Unalias(T).(*types.Named)
+	pk := ""
+	if n.Obj().Pkg() != nil {
+		pk = n.Obj().Pkg().Name()
+	}
+	gd := env.eng().specs.Ghosts[pk+"."+n.Obj().Name()+"."+name]
+	FT := env.eng().resolveType(gd.Type, gd.PkgName)
+	return ArraySort(SInt, env.eng().sortOf(FT))
+}
+
 func (env *Env) ghostFieldDecl(T types.Type, name string) string {
 	n, ok := types.Unalias(T).(*types.Named)
 	if !ok {
@@ -739,6 +776,21 @@ func (st *State) typeOfExpr(env *Env, x *Expr) types.Type {
 		}
 	}
 	return nil
+}
+
+func (st *State) isPkgName(env *Env, name string) bool {
+	if _, ok := env.vars[name]; ok {
+		return false
+	}
+	if env.fr != nil {
+		if _, ok := env.fr.params[name]; ok {
+			return false
+		}
+		if _, ok := env.local(name); ok {
+			return false
+		}
+	}
+	return st.tryTypeName(env, name) == nil
 }
 
 func (st *State) tryTypeName(env *Env, name string) types.Type {
@@ -1127,6 +1179,10 @@ func (u *Unit) checkFrame(st *State, pos token.Pos) {
 			}
 			continue
 		}
+		if hn, _, _, ok := e.pkgQualifiedHeap(m); ok && st.isPkgName(env, m.Args[0].Op) {
+			allowedAll[hn] = true
+			continue
+		}
 		// object-granular?
 		switch m.Kind {
 		case ESel:
@@ -1252,6 +1308,12 @@ func (u *Unit) checkFrame(st *State, pos token.Pos) {
 
 // modifiesHeapNames: type-level resolution of a modifies entry into heap variable names.
 func (e *Engine) modifiesHeapNames(spec *FuncSpec, m *Expr, ws *writeSet) bool {
+	if m.Kind == ESel && m.Args[0].Kind == EIdent && e.staticTypeOfSpecExpr(spec, m.Args[0]) == nil && e.lookupTypeByPkgName(spec.PkgName, m.Args[0].Op) == nil {
+		if hn, sort, _, ok := e.pkgQualifiedHeap(m); ok {
+			ws.heap[hn] = sort
+			return true
+		}
+	}
 	switch m.Kind {
 	case EIdent:
 		if m.Op == "everything" {
@@ -1302,10 +1364,11 @@ func (e *Engine) modifiesHeapNames(spec *FuncSpec, m *Expr, ws *writeSet) bool {
 						}
 					}
 					if !ok2 {
-						nm := T.(*types.Named)
-						if gd := e.specs.Ghosts[spec.PkgName+"."+nm.Obj().Name()+"."+m.Op]; gd != nil {
+						nm := types.Unalias(T).(*types.Named)
+						tpk := nm.Obj().Pkg().Name()
+						if gd := e.specs.Ghosts[tpk+"."+nm.Obj().Name()+"."+m.Op]; gd != nil {
 							FT := e.resolveType(gd.Type, gd.PkgName)
-							ws.heap["GF_"+sanitize(spec.PkgName+"_"+nm.Obj().Name()+"_"+m.Op)] = ArraySort(SInt, e.sortOf(FT))
+							ws.heap["GF_"+sanitize(tpk+"_"+nm.Obj().Name()+"_"+m.Op)] = ArraySort(SInt, e.sortOf(FT))
 							ok2 = true
 						}
 					}
